@@ -179,9 +179,9 @@ def with_flags(fn, valuation):
     return val
 
 
-def reachable_assuming(cfg, start: int, valuation) -> set:
+def reachable_assuming(cfg, start: int, valuation, avoid=None) -> set:
     """CFG nodes reachable from start when every test whose truth value is determined by `valuation(atom_text) -> bool|None`
-    takes only the matching edge."""
+    takes only the matching edge (and no path passes through a node for which `avoid(node)` holds)."""
     seen = {start}
     work = [start]
     while work:
@@ -195,7 +195,7 @@ def reachable_assuming(cfg, start: int, valuation) -> set:
         for v, cond in cfg.succ[u]:
             if verdict in (True, False) and cond is not None and not isinstance(cond[0], str) and cond[1] != verdict:
                 continue
-            if v not in seen:
+            if v not in seen and not (avoid is not None and avoid(cfg.nodes[v])):
                 seen.add(v)
                 work.append(v)
     return seen
